@@ -165,6 +165,13 @@ def build():
 
     p.models["os.path.exists"] = os_exists
 
+    def os_isdir(interp, args, kwargs):
+        interfere(interp)
+        ex, ct, _ = fs(interp.ctx)
+        return ops.mk_bool(z3.And(z3.Select(ex, to_term(args[0])), z3.Select(ct, to_term(args[0])) == 0))
+
+    p.models["os.path.isdir"] = os_isdir
+
     def os_makedirs(interp, args, kwargs):
         ctx = interp.ctx
         interfere(interp)
